@@ -208,8 +208,8 @@ func (g *gen) genStage() {
 		s.ChunkOuts = []Field{{"p0", g.primType()}}
 	}
 	if g.cfg.Resources && g.pick(2) == 0 {
-		s.Threads = []float64{1, 2, 0.5, 4, -2}[g.pick(5)]
-		s.MemGB = []float64{1, 2, 0.5, 6, -1}[g.pick(5)]
+		s.Threads = []float64{1, 2, 0.5, 4, -2, 1.5, 2.5, 3.25, 4.75}[g.pick(9)]
+		s.MemGB = []float64{1, 2, 0.5, 6, -1, 1.5, 2.25, 6.5}[g.pick(8)]
 	}
 	if g.cfg.Volatile {
 		switch g.pick(4) {
